@@ -330,6 +330,11 @@ COMMENTS = ['# plain comment', "# it's (a) comment, with 'quotes'", '# ünïcöd
             "# executable('ghost', 'ghost.c')"]
 
 
+# how a later target may receive a source list that an earlier target uses by its plain name
+SHARED_VIA = ['get-variable', 'get-variable', 'get-variable-into-variable', 'alias', 'alias-of-alias', 'plus-literal', 'plus-variables',
+              'array-element', 'dict-value', 'array-index', 'files-argument', 'set-variable', 'plus-assign', 'ternary', 'foreach']
+
+
 class ProjectGen:
     def __init__(self, rng: random.Random, linebreak_hazard: bool = False) -> None:
         self.rng = rng
@@ -577,6 +582,7 @@ class ProjectGen:
         libvars: T.List[str] = []
         ntargets = r.choice([1, 2, 2, 3, 3, 4])
         shared_var: T.Optional[str] = None
+        shared_kind = ''
         for i in range(ntargets):
             in_sub = with_sub and (i == ntargets - 1 or r.random() < 0.25)
             dest = sub_lines if in_sub else lines
@@ -589,8 +595,10 @@ class ProjectGen:
                 pool.add('alt/' + srcs[0])
                 self.features.append('src-same-basename')
             shape = r.randrange(16)
-            if shared_var is not None and not in_sub and r.random() < 0.3:
+            if shared_var is not None and not in_sub and r.random() < 0.45:
                 shape = 6
+            elif shared_var is None and not in_sub and i < ntargets - 1 and r.random() < 0.2:
+                shape = r.choice([2, 2, 3])         # a list in a variable that a later target can share
             oneline = False
             # a variable consumed by a target of the subdirectory may be defined in the parent directory
             vdest = dest
@@ -633,8 +641,57 @@ class ProjectGen:
                 vdest.append(f'{sv} = [{L(srcs[0])}]')
                 pos = [f'{sv} + [' + ', '.join(L(s) for s in srcs[1:]) + ']']
             elif shape == 6 and shared_var is not None and not in_sub:
+                # a list SHARED with an earlier target (which uses it by its plain name); this target receives it by the
+                # plain name too, or through an indirection: whatever command addresses one of the two targets, the
+                # other one must keep its sources (or the command must refuse)
                 self.features.append('src-shared-var')
-                pos = [shared_var] + [L(s) for s in srcs[:1]]
+                form = r.choice(SHARED_VIA) if r.random() < 0.75 else 'plain'
+                if form == 'files-argument' and shared_kind != 'strings':
+                    form = 'get-variable'
+                self.features.append('src-shared-via-' + form)
+                sh = shared_var
+                other = L(srcs[1]) if len(srcs) > 1 else L(self.srcname(pool))
+                if form == 'plain':
+                    ex = sh
+                elif form == 'get-variable':
+                    ex = f"get_variable('{sh}')"
+                elif form == 'get-variable-into-variable':
+                    dest.append(f"mid{i} = get_variable('{sh}')")
+                    ex = f'mid{i}'
+                elif form == 'alias':
+                    dest.append(f'al{i} = {sh}')
+                    ex = f'al{i}'
+                elif form == 'alias-of-alias':
+                    dest += [f'al{i} = {sh}', f'al{i}b = al{i}']
+                    ex = f'al{i}b'
+                elif form == 'plus-literal':
+                    ex = f'{sh} + [{other}]'
+                elif form == 'plus-variables':
+                    dest.append(f'more{i} = [{other}]')
+                    ex = r.choice([f'more{i} + {sh}', f'{sh} + more{i}'])
+                elif form == 'array-element':
+                    ex = r.choice([f'[{sh}, {other}]', f'[{other}, {sh}]', f'[{sh}]'])
+                elif form == 'dict-value':
+                    dest.append(f"d{i} = {{'k' : {sh}, 'other' : [{other}]}}")
+                    ex = f"d{i}['k']"
+                elif form == 'array-index':
+                    dest.append(f'arr{i} = [{sh}]')
+                    ex = f'arr{i}[0]'
+                elif form == 'files-argument':
+                    ex = f'files({sh})'
+                elif form == 'set-variable':
+                    dest.append(f"set_variable('sv{i}', {sh})")
+                    ex = f'sv{i}'
+                elif form == 'plus-assign':
+                    dest += [f'acc{i} = [{other}]', f'acc{i} += {sh}']
+                    ex = f'acc{i}'
+                elif form == 'ternary':
+                    ex = r.choice(['true', 'n1 > 0', 'bb == bb']) + f' ? {sh} : []'
+                else:
+                    assert form == 'foreach'
+                    dest += [f'acc{i} = []', f'foreach x{i} : {sh}', f'  acc{i} += x{i}', 'endforeach']
+                    ex = f'acc{i}'
+                pos = [ex] + [L(s) for s in srcs[:1]]
             elif shape == 7:
                 # the `sources:` keyword: a variable, a literal array, a files() call, or next to positional sources
                 form = r.randrange(4)
@@ -708,6 +765,7 @@ class ProjectGen:
                 pos = ['files(' + ', '.join(L(s) for s in srcs) + ')']
             if shape in (2, 3) and shared_var is None and not in_sub:
                 shared_var = sv
+                shared_kind = 'strings' if shape == 2 else 'files'
             if r.random() < 0.3:
                 ef = list(dict.fromkeys(self.srcname(pool, fancy=False).rsplit('.', 1)[0] + '.h' for _ in range(r.choice([1, 2]))))
                 efs = r.random()
